@@ -15,6 +15,16 @@ impl OptionExt for Option<Component> {
 //@ body
 }
 
+// string containment helpers of the same module (ASSUMED[has-contracts]: proved in unit path_helpers): literal or path arguments
+#[verifier::external_body]
+pub fn has_prefix<U: PathLike>(path: &PathBuf, prefix: U) -> (r: bool) ensures r == (path.utf8_ok() && prefix.lu() && is_prefix(prefix.lp(), path.pstr())) { unimplemented!() }
+#[verifier::external_body]
+pub fn has_suffix<U: PathLike>(path: &PathBuf, suffix: U) -> (r: bool) ensures r == (path.utf8_ok() && suffix.lu() && is_suffix(suffix.lp(), path.pstr())) { unimplemented!() }
+#[verifier::external_body]
+pub fn has_sub<U: PathLike>(path: &PathBuf, val: U) -> (r: bool)
+    ensures (path.utf8_ok() && val.lu()) ==> r == (exists|i: int| 0 <= i && i + val.lp().len() <= path.pstr().len() && #[trigger] path.pstr().subrange(i, i + val.lp().len()) == val.lp()),
+            !(path.utf8_ok() && val.lu()) ==> !r
+{ unimplemented!() }
 //@ item is_empty file=src/sys/fs/path.rs fn=is_empty props=C14,C15,C12
 //@ sig pub fn is_empty<T: Into<PathBuf>>(path: T) -> bool
 //@ rw R1 * ⟦path.into() == PathBuf::new()⟧ => ⟦path.to_path_buf().eq(&PathBuf::new())⟧
@@ -27,6 +37,7 @@ pub fn is_empty(path: &PathBuf) -> (b: bool)
 //@ body
 
 //@ item clean file=src/sys/fs/path.rs fn=clean props=C14,C12,C05,C01,C16
+//@ rw R1 * re⟦(?<![.\w])has\(⟧ => ⟦has_sub(⟧
 //@ sig pub fn clean<T: AsRef<Path>>(path: T) -> PathBuf
 //@ rw R3 1 for
 //@ rw R8 * ⟦path_buf.push(".");⟧ => ⟦path_buf.push(Component::CurDir);⟧
